@@ -46,8 +46,71 @@ def dl_boundary_scripts(rng, n):
     return out
 
 
+def cnf_tie(ctx, n):
+    """clauses handed to the SAT engine vs the preprocessed formula, judged by the extracted verified truth table"""
+    import os, random
+    import concurrent.futures as cf
+    import vlib, scriptgen, cnftie
+    import solvercheck as sc
+    exe, log = vlib.build_extracted("cnf")
+    if not exe:
+        ctx.tie_broken("extraction-cnf", log)
+        return
+
+    def one(i):
+        rng = random.Random(ctx.seed * 49979687 + i)
+        opts = rng.choice([(), (), (":produce-interpolants true",), (":produce-unsat-cores true",), (":incremental 0",)])
+        text, meta = scriptgen.gen_script(rng, incremental=rng.random() < 0.5 and opts != (":incremental 0",), queries=(), produce_models=False,
+                                          options=opts, logics=["QF_BOOL", "QF_BOOL", "QF_UF", "QF_LRA", "QF_LIA", "QF_IDL", "QF_UFLRA"], depth=rng.choice([2, 3, 3]))
+        tr = os.path.join(vlib.BUILD, "tmp", "c02_%d_%d.trace" % (os.getpid(), i))
+        os.makedirs(os.path.dirname(tr), exist_ok=True)
+        if os.path.exists(tr):
+            os.remove(tr)
+        rc, out, err = vlib.run_opensmt(text, timeout=10, env_extra={"OPENSMT_VERIF_TRACE": tr})
+        qs, stats = (None, {})
+        if os.path.exists(tr) and rc in (0, 1):
+            s0 = sc.Script(text)
+            s0.run()
+            try:
+                qs, stats = cnftie.queries_from_trace(tr, s0.sig)
+            except Exception as e:       # glue problem: reported as a broken tie below
+                qs, stats = None, {"exception": repr(e)}
+        if os.path.exists(tr):
+            os.remove(tr)
+        return text, meta, rc, qs, stats, opts
+    with cf.ThreadPoolExecutor(max_workers=12) as ex:
+        res = list(ex.map(one, range(n)))
+    lines, owner = [], []
+    for text, meta, rc, qs, stats, opts in res:
+        if rc not in (0, 1):
+            continue
+        if qs is None:
+            ctx.tie_broken("cnf-trace-reading", str(stats), dict(script=text))
+            continue
+        for q in qs:
+            lines.append(q[2])
+            owner.append((text, q, opts))
+        ctx.case(key=("cnf", text), nontrivial=len(qs) > 2, kind="cnf-tie:%s:checks=%d" % (meta["logic"], stats.get("checks", 0)),
+                 sample=dict(script=text, queries=len(qs), atoms=stats.get("atoms")))
+        ctx.count("cnf-tie:skipped-too-many-atoms", stats.get("skipped-too-many-atoms", 0))
+    if not lines:
+        return
+    rc, out = vlib.sh([exe], input="\n".join(lines) + "\n", timeout=900)
+    verdicts = out.split("\n")
+    if rc != 0 or len(verdicts) < len(lines):
+        ctx.tie_broken("cnf-driver", out[-300:])
+        return
+    ctx.count("cnf-tie:validity-queries", len(lines))
+    for (text, q, opts), v in zip(owner, verdicts):
+        if v != "valid":
+            kind = q[1]
+            ctx.tie_broken("cnf-correspondence:" + kind,
+                           "check %d: %s is not valid (%s): %s" % (q[0], kind, v, q[3][:200]), dict(script=text, options=list(opts), formula=q[2][:2000]))
+
+
 def run(ctx):
     import solvercheck as sc
+    cnf_tie(ctx, 90 if ctx.quick else 2500)
     answercheck.run_corpus(ctx, "C02", judge_sat=True, judge_unsat=False)
     for text, logic, c in dl_boundary_scripts(ctx.rng, 40 if ctx.quick else 600):
         rc, res, out, err = sc.run_aligned(text, timeout=10)
